@@ -79,7 +79,7 @@ class C19(PureCheck):
     warm_every = 3
     rule = ("pool of FmtStr values from Layouts(2,2) over {plain, red, bold+on_blue, red+bold=False} (same text/different "
             "formatting, same display/different run boundaries, empty runs, explicit False) plus every plain str of the pool's "
-            "texts and plain strs carrying escape sequences (the value's own terminal string and 6 other spellings of it), values derived from an already rendered styled value by switching the style off, and pieces cut out of an already rendered value (texts spelled like a fragment of their own escape sequence included); values whose terminal string has about 1024 / 1100 / 2500 characters against the equal str and near misses; all ordered pairs (quick: a sampled pool of 150 -> all pairs) with ==, !=, reversed ==, hash, set and dict "
+            "texts and plain strs carrying escape sequences (the value's own terminal string and 6 other spellings of it), values derived from an already rendered styled value by switching the style off, and pieces cut out of an already rendered value (texts spelled like a fragment of their own escape sequence included); canonically equivalent Unicode spellings of one text; values whose terminal string has about 1024 / 1100 / 2500 characters against the equal str and near misses; all ordered pairs (quick: a sampled pool of 150 -> all pairs) with ==, !=, reversed ==, hash, set and dict "
             "membership recorded together with both terminal strings; repr round trip (eval in a namespace holding only the "
             "fmtfuncs names) for every layout with >=1 run, sums of two values shown before they were added (every split point, zero-run operands included), texts with quotes/escapes and run boundaries right before a combining / zero-width character. distinct_nontrivial = distinct pairs "
             "whose texts are equal but run lists differ, or repr cases with >=1 formatted run")
@@ -146,6 +146,15 @@ class C19(PureCheck):
                 for y in ({"k": "r", "v": l, "variant": 0}, {"k": "r", "v": l, "variant": 1}, {"k": "f", "v": mid}, {"k": "r", "v": mid, "variant": 0}, x):
                     yield {"op": "eq", "x": x, "y": y}
                     yield {"op": "eq", "x": y, "y": x}
+        # canonically equivalent spellings of the same text (precomposed / decomposed, singletons, jamo, reordered marks):
+        # other characters, so other terminal strings - never equal, whatever the formatting
+        for (t1, t2) in (("\u00e9", "e\u0301"), ("\u212b", "\u00c5"), ("\u2126", "\u03a9"), ("\ud55c", "\u1112\u1161\u11ab"),
+                         ("q\u0323\u0307", "q\u0307\u0323"), ("x\u00e9y", "xe\u0301y")):
+            for a in (fmtlib.PLAIN, ATTS[1], ATTS[2]):
+                x = {"k": "f", "v": [[[ord(c) for c in t1], list(a)]]}
+                y = {"k": "f", "v": [[[ord(c) for c in t2], list(a)]]}
+                for (p_, q_) in ((x, y), (y, x), (x, {"k": "r", "v": y["v"], "variant": 0}), ({"k": "r", "v": x["v"], "variant": 0}, y), (x, x)):
+                    yield {"op": "eq", "x": p_, "y": q_}
         # values of different concrete classes (an application's subclass against the base class and against a str)
         for l in (fpool[:40] if tier == "quick" else fpool[:200]):
             for other in ({"k": "f", "v": l}, {"k": "r", "v": l, "variant": 0}, {"k": "f", "v": l[::-1]}):
